@@ -322,7 +322,11 @@ func writeSegment(ctx context.Context, w http.ResponseWriter, log *slog.Logger, 
 	if cfg.AvailabilityTimeCompleteFlag {
 		return 0, writeLiveSegment(log, w, cfg, drmCfg, vodFS, a, segmentPart, nowMS, tt, isLast)
 	}
-	// Chunked low-latency mode
+	// Chunked low-latency mode. Generated time subtitles are small and always sent as a whole.
+	isTimeSubsMedia, err := writeTimeSubsMediaSegment(w, cfg, a, segmentPart, nowMS, tt, isLast)
+	if isTimeSubsMedia {
+		return 0, err
+	}
 	return 0, writeChunkedSegment(ctx, log, w, cfg, drmCfg, vodFS, a, segmentPart, nowMS, isLast)
 }
 
